@@ -30,7 +30,7 @@ def main(tier):
     scratch = common.scratch_dir("c17")
     try:
         states = trans = 0
-        base = dict(NTraj=2, NStates=3, Steps=1, Decohere=False, SignZero=1, SwapScope="own", Rich=True)
+        base = dict(NTraj=2, NStates=3, Steps=1, Decohere=False, SignZero=1, SwapScope="own", Detect=False, Rich=True)
         variants = [("rich", {}), ("rich+decohere", {"Decohere": True}), ("long", {"Rich": False, "Steps": 3}), ("long+decohere", {"Rich": False, "Steps": 3, "Decohere": True})]
         if tier == "quick":
             variants = []   # quick: the export runs below check the same properties on the exported configurations
@@ -49,16 +49,23 @@ def main(tier):
             if not rr.violated:
                 rep.machinery(f"vacuity: {name} not refuted")
         behs = []
-        exports = [("rich", {}, 37), ("richd", {"Decohere": True}, 97), ("long2", {"Rich": False, "Steps": 2}, 13), ("long2d", {"Rich": False, "Steps": 2, "Decohere": True}, 29)]
+        exports = [("rich", {}, 37), ("richd", {"Decohere": True}, 97), ("long2", {"Rich": False, "Steps": 2}, 13), ("long2d", {"Rich": False, "Steps": 2, "Decohere": True}, 29),
+                   ("det2", {"Rich": False, "Steps": 2, "Detect": True}, 7)]
         if tier == "thorough":
             exports = [("rich", {}, 5), ("richd", {"Decohere": True}, 11), ("long2", {"Rich": False, "Steps": 2}, 2), ("long2d", {"Rich": False, "Steps": 2, "Decohere": True}, 3),
-                       ("long3", {"Rich": False, "Steps": 3}, 499), ("long3d", {"Rich": False, "Steps": 3, "Decohere": True}, 997)]
+                       ("long3", {"Rich": False, "Steps": 3}, 499), ("long3d", {"Rich": False, "Steps": 3, "Decohere": True}, 997),
+                       ("det2", {"Rich": False, "Steps": 2, "Detect": True}, 1), ("det3", {"Rich": False, "Steps": 3, "Detect": True}, 199), ("det3d", {"Rich": False, "Steps": 3, "Detect": True, "Decohere": True}, 499)]
         for name, over, mod in exports:
             out = os.path.join(scratch, f"fssh_{name}.ndjson")
             c = dict(base, **over)
-            g = tlc.run("FSSHGen", dict(spec="Spec", constants=dict(c, ExportMod=mod), invariants=INV + ["Collect"], properties=PROPS, postcondition="Export"), workers=1, env={"OUT_FILE": out}, scratch=scratch, timeout=3000, cfg_name="FSSHGen_" + name)
-            if g.violated:
-                rep.violation("model_property_violated", {"variant": name, "violated": g.violated}, model=True)
+            g = tlc.run("FSSHGen", dict(spec="Spec", constants=dict(c, ExportMod=mod), invariants=["Collect"], postcondition="Export"), workers=1, env={"OUT_FILE": out}, scratch=scratch, timeout=3000, cfg_name="FSSHGen_" + name)
+            pr = tlc.run("FSSH", dict(spec="Spec", constants=c, invariants=INV, properties=PROPS), scratch=scratch, timeout=3000)   # same configuration, all cores
+            states += pr.distinct
+            trans += pr.generated
+            if pr.error:
+                rep.machinery(f"TLC FSSH {name}: " + pr.error[:400])
+            elif pr.violated:
+                rep.violation("model_property_violated", {"variant": name, "violated": pr.violated}, model=True)
             states += g.distinct
             trans += g.generated
             if not os.path.exists(out):
@@ -66,6 +73,7 @@ def main(tier):
                 continue
             for b in tlc.read_ndjson(out):
                 b["decohere"] = c["Decohere"]
+                b["detect"] = c["Detect"]
                 behs.append(b)
         chunks = [behs[i::16] for i in range(16)]
 
